@@ -578,7 +578,16 @@ func truthMakers(fi *FuncInfo, lit *ast.FuncLit) map[string]bool {
 		return out
 	}
 	param, _ := fi.Info.Defs[lit.Type.Params.List[0].Names[0]].(*types.Var)
-	isParam := func(e ast.Expr) bool { return fi.varOf(e) == param || fi.varOf(fi.deref(e)) == param }
+	params := map[*types.Var]bool{param: true} // the candidate name, also under the parameter names of local closures it is passed to
+	isParam := func(e ast.Expr) bool {
+		v := fi.varOf(e)
+		if v != nil && params[v] {
+			return true
+		}
+		v = fi.varOf(fi.deref(e))
+		return v != nil && params[v]
+	}
+	var walk func(list []ast.Stmt)
 	var classify func(e ast.Expr, depth int)
 	classify = func(e ast.Expr, depth int) {
 		e = ast.Unparen(e)
@@ -625,6 +634,18 @@ func truthMakers(fi *FuncInfo, lit *ast.FuncLit) map[string]bool {
 					undo()
 					return
 				}
+				// a local closure with a longer body: its own tests count, for its parameter
+				if v := fi.varOf(x.Fun); v != nil && depth < 3 {
+					if sd := fi.singleDef(v); sd != nil && sd.idx < 0 {
+						if l2, ok := ast.Unparen(sd.rhs).(*ast.FuncLit); ok && len(l2.Type.Params.List) == 1 && len(l2.Type.Params.List[0].Names) == 1 {
+							if pv, ok := fi.Info.Defs[l2.Type.Params.List[0].Names[0]].(*types.Var); ok {
+								params[pv] = true
+								walk(l2.Body.List)
+								return
+							}
+						}
+					}
+				}
 			}
 		case *ast.Ident:
 			if x.Name == "false" {
@@ -633,7 +654,6 @@ func truthMakers(fi *FuncInfo, lit *ast.FuncLit) map[string]bool {
 		}
 		out["other:"+exprShort(e)] = true
 	}
-	var walk func(list []ast.Stmt)
 	walk = func(list []ast.Stmt) {
 		for _, s := range list {
 			switch s := s.(type) {
